@@ -514,6 +514,9 @@ inductive EPat where
   | par (ps : List EPat)
   | dur (d tol : Rat) (p : EPat)        -- `Pdur(d, p, tol)`
   | delta (t : Rat) (p : EPat)          -- `Pdelta(t, p)`
+  | mono (inst : String) (b : Binds)    -- `Pmono(inst, b)` (articulate = false) inside a composition
+  | seq (ps : List EPat)                -- `Pseq([p, …])`: one after the other
+  | pn (p : EPat) (n : Nat)             -- `Pn(p, n)`
 deriving Repr, Inhabited
 
 /-- `bi.roundup(x, tol)` for floats. -/
@@ -575,30 +578,123 @@ def pparL (inevent : Ev) (children : List (List Ev)) : List Ev :=
     | some (_, e) => e.set "delta" (.num d)
     | Option.none => silent d inevent
 
+/-- Marks on the elements a Pmono contributes to an event stream: `on` (first event: starts the synth),
+    `set` (updates it), and `off`: not an event but the moment the Pmono's own stream ends — its
+    cleanup releases the synth right then, i.e. when the next element is pulled; as an element of the
+    timeline it has delta 0. `_tag` tells the Pmonos of a composition apart. -/
+def monoMark (kind : String) (tag : Nat) (e : Ev) : Ev :=
+  (e.set "_kind" (.str kind)).set "_tag" (.num tag)
+
+def Ev.kind? (e : Ev) : Option String :=
+  match e.get? "_kind" with
+  | some (.str s) => some s
+  | _ => Option.none
+
+def Ev.tag (e : Ev) : Nat :=
+  match e.get? "_tag" with
+  | some (.num q) => q.num.toNat
+  | _ => 0
+
+/-- The elements of a Pmono: its events marked `on` / `set`, then the release point. -/
+def monoEvs (inst : String) (tag : Nat) (inev : Ev) (rows : List Ev) : List Ev :=
+  match rows with
+  | [] => []
+  | r :: rs =>
+    monoMark "on" tag ((inev.update r).set "instrument" (.str inst)) ::
+      (rs.map fun x => monoMark "set" tag (inev.update x)) ++
+      [monoMark "off" tag [("delta", .num 0)]]
+
 mutual
-/-- The events the stream of a pattern delivers when every `next` gets the input event `inev`. -/
-def EPat.evs (inev : Ev) : EPat → List Ev
+/-- The events the stream of a pattern delivers when every `next` gets the input event `inev`
+    (`tag`: position of the pattern in the composition, for telling Pmonos apart). -/
+def EPat.evs (inev : Ev) (tag : Nat) : EPat → List Ev
   | .bind b =>
     match b.len? with
     | some n => (List.range n).map fun i => inev.update (b.row i)
     | Option.none => []
   | .chain b p =>
-    let es := p.evs inev
+    let es := p.evs inev (tag * 16 + 1)
     let n := match b.len? with
       | some n => min n es.length
       | Option.none => es.length
     (List.zip (es.take n) (List.range n)).map fun (e, i) => Ev.update e (b.row i)
-  | .par ps => pparL inev (EPat.evsL inev ps)
-  | .dur d tol p => pdurL d tol 0 (p.evs inev)
-  | .delta t p => if 0 < t then silent t inev :: p.evs inev else p.evs inev
-def EPat.evsL (inev : Ev) : List EPat → List (List Ev)
-  | [] => []
-  | p :: t => p.evs inev :: EPat.evsL inev t
+  | .par ps => pparL inev (EPat.evsL inev (tag * 16) 1 ps)
+  | .dur d tol p => pdurL d tol 0 (p.evs inev (tag * 16 + 1))
+  | .delta t p => if 0 < t then silent t inev :: p.evs inev (tag * 16 + 1) else p.evs inev (tag * 16 + 1)
+  | .mono inst b =>
+    match b.len? with
+    | some n => monoEvs inst tag inev ((List.range n).map fun i => b.row i)
+    | Option.none => []
+  | .seq ps => (EPat.evsL inev (tag * 16) 1 ps).flatten
+  | .pn p n => (List.replicate n (p.evs inev (tag * 16 + 1))).flatten
+def EPat.evsL (inev : Ev) (base : Nat) : Nat → List EPat → List (List Ev)
+  | _, [] => []
+  | i, p :: t => p.evs inev (base + i) :: EPat.evsL inev base (i + 1) t
 end
+
+/-- The player over a stream that may contain Pmono elements: `held` are the running Pmono synths. -/
+def playAllM (w : World) (t : Rat) (held : List (Nat × Held)) : List Ev → List Msg × World × Rat × Bool
+  | [] => (held.map fun kh => offMsg w t kh.2 0, w, t, false)      -- the player's own cleanup
+  | e :: es =>
+    match e.kind? with
+    | some "off" =>
+      let m := match held.lookup e.tag with
+        | some h => [offMsg w t h 0]
+        | Option.none => []
+      match e.delta with
+      | some d =>
+        let (ms, w', t', died) := playAllM w (t + d) (held.filter (·.1 != e.tag)) es
+        (m ++ ms, w', t', died)
+      | Option.none => (m, w, t, false)
+    | some "on" =>
+      match notePrep w e with
+      | Option.none => ([], w, t, true)
+      | some (i, hasGate, params, action, group) =>
+        let id := w.nextId
+        let w1 := { w with nextId := w.nextId + 1 }
+        let m1 : List Msg := if e.isRest then [] else
+          [⟨t + w.latency, "/s_new", [.s i, .n (.q id), .n (.q action), .n (.q group)] ++ params⟩]
+        match e.delta with
+        | Option.none => (m1, w1, t, false)
+        | some d =>
+          let (ms, w', t', died) :=
+            playAllM w1 (t + d) ((e.tag, ⟨id, paramNames params, hasGate⟩) :: held.filter (·.1 != e.tag)) es
+          (m1 ++ ms, w', t', died)
+    | some "set" =>
+      match held.lookup e.tag with
+      | Option.none => ([], w, t, true)
+      | some h =>
+        if e.isRest then
+          match e.delta with
+          | Option.none => ([], w, t, false)
+          | some d => playAllM w (t + d) held es
+        else
+          match setMsg w t e h with
+          | Option.none => ([], w, t, true)
+          | some m =>
+            match e.delta with
+            | Option.none => ([m], w, t, false)
+            | some d =>
+              let (ms, w', t', died) := playAllM w (t + d) held es
+              (m :: ms, w', t', died)
+    | _ =>
+      if e.isRest then
+        match e.delta with
+        | some d => playAllM w (t + d) held es
+        | Option.none => ([], w, t, false)
+      else
+        match playNote w t e with
+        | (m1, w1, true) => (m1, w1, t, true)
+        | (m1, w1, false) =>
+          match e.delta with
+          | some d =>
+            let (ms, w', t', died) := playAllM w1 (t + d) held es
+            (m1 ++ ms, w', t', died)
+          | Option.none => (m1, w1, t, false)
 
 /-- `pattern.play()` at logical time `t` with the default (empty) proto event. -/
 def playPattern (w : World) (t : Rat) (p : EPat) : List Msg × World × Rat × Bool :=
-  playAll w t (p.evs [])
+  playAllM w t [] (p.evs [] 1)
 
 /-- The events a Pmono's Pbind part delivers (empty proto). -/
 def Binds.rows (b : Binds) : List Ev :=
